@@ -34,7 +34,7 @@ def load_claims():
 
 def main():
     claims = load_claims()
-    hooks = subprocess.run("git -C /repo log --format=%H --grep='^verif hooks'", shell=True, stdout=subprocess.PIPE).stdout.decode().split()
+    hooks = subprocess.run("git -C /repo log --format=%H --grep='^verif hooks\?:'", shell=True, stdout=subprocess.PIPE).stdout.decode().split()
     checks, na = [], []
     for i in range(1, 21):
         pid = "C%02d" % i
